@@ -129,7 +129,10 @@ class Alg:
             x = t[1]
             if x[0] == "int":
                 return Poly.const(x[1])
-            return Poly.atom(("enc", self.canon(x)))
+            a = ("enc", self.canon(x))
+            if a in self.facts:
+                return self.facts[a]
+            return Poly.atom(a)
         if k == "int":
             return Poly.const(t[1])
         if k == "vsum":
@@ -158,11 +161,17 @@ class Alg:
             r = self.poly_term(p)
         elif k == "b":
             r = ("B", self.nb(t[1]))
-        elif k == "B":
+        elif k in ("B", "ITE"):
             r = t
         elif k == "icast":
             x = self.canon(t[1])
-            r = x if value_preserving(t[2], t[3]) else ("icast", x, t[2], t[3])
+            if value_preserving(t[2], t[3]):
+                r = x
+            elif x[0] == "icast" and x[2] == t[3] and x[3] == t[2] and _W.get(t[2]) == _W.get(t[3]):
+                # same-width round trip (u64 as i64 as u64): the identity for every value
+                r = x[1]
+            else:
+                r = ("icast", x, t[2], t[3])
         elif k == "ite":
             c = self.nb(t[1])
             a, b = self.canon(t[2]), self.canon(t[3])
@@ -173,7 +182,7 @@ class Alg:
             elif a == b:
                 r = a
             else:
-                r = ("ite", c, a, b)
+                r = ("ITE", c, a, b)
         elif k in ("vmap", "refs", "vals", "array", "repeat") and self.is_vector(t):
             r = self.vec(t)
         elif k in ("box", "refv"):
@@ -483,7 +492,8 @@ class Alg:
             return None
         self.__dict__.setdefault("lemmas_used", []).append(
             "digit decomposition: sum_j %d^j enc(d_j) = enc(v) for 0 <= v < %d^%d" % (U, U, L))
-        return Poly.atom(("enc", v0))
+        a = ("enc", self.canon(v0))
+        return self.facts[a] if a in self.facts else Poly.atom(a)
 
     # ------------------------------------------------------------ booleans
     def nb(self, node):
